@@ -131,6 +131,35 @@ pub fn gen_tree(rng: &mut Rng, opts: &TreeOpts) -> TreeSpec {
         entries.push(Entry { path: p.clone(), kind: EntryKind::File(content) });
         used.push(p);
     }
+    // rare shapes: a directory called index.html, a link loop, a link to itself, a deep chain
+    if rng.chance(1, 6) {
+        let d = rng.pick(&dirs).clone();
+        let p = format!("{}/index.html", d);
+        if !used.contains(&p) && rng.chance(1, 2) {
+            entries.push(Entry { path: p.clone(), kind: EntryKind::Dir });
+            used.push(p);
+        }
+        if opts.symlinks {
+            for (name, target) in [("loop-a", "loop-b"), ("loop-b", "loop-a"), ("selfie", "selfie")] {
+                let p = format!("{}/{}", root, name);
+                if !used.contains(&p) {
+                    entries.push(Entry { path: p.clone(), kind: EntryKind::Symlink(target.to_string()) });
+                    used.push(p);
+                }
+            }
+        }
+    }
+    if rng.chance(1, 8) {
+        let mut p = root.clone();
+        for k in 0..rng.range(5, 9) {
+            p = format!("{}/n{}", p, k);
+        }
+        let f = format!("{}/deep.txt", p);
+        if !used.contains(&f) {
+            entries.push(Entry { path: f.clone(), kind: EntryKind::File(Content::Gen { marker: format!("{}\n", marker(opts.nonce, 900)), len: 60, seed: 9, binary: false }) });
+            used.push(f);
+        }
+    }
     if opts.symlinks {
         let files: Vec<String> = entries.iter().filter(|e| matches!(e.kind, EntryKind::File(_))).map(|e| e.path.clone()).collect();
         let n = rng.below(3);
